@@ -152,6 +152,16 @@ Theorem C16_frag_relabel_and_writes : forall p ti ev (d hto : bool),
 Proof. exact frag_her_picks. Qed.
 Print Assumptions C16_frag_relabel_and_writes.
 
+(* truncate_last_trajectory marks the newest slot of a running episode: dones = 1 and (with timeout handling) timeouts = 1, so the truncated
+   transition is returned with done = 0 under handle_timeout_termination and done = 1 - stored timeout flag otherwise; ghosts unchanged *)
+Theorem C16_truncate_marks : forall c hto p k,
+  (cur k <> p -> sl (col_truncate c hto p k) ((p - 1) mod c) = mark_end hto (sl k ((p - 1) mod c))) /\
+  (forall s, x_done (mark_end hto s) = 1 /\ x_to (mark_end hto s) = (if hto then 1 else x_to s) /\
+             done_mask (x_done (mark_end hto s)) (x_to (mark_end hto s)) = (if hto then 0 else 1 - x_to s) /\
+             x_last (mark_end hto s) = true /\ x_ep (mark_end hto s) = x_ep s /\ x_ix (mark_end hto s) = x_ix s).
+Proof. exact (fun c hto p k => conj (truncate_marks_newest_slot c hto p k) (mark_end_flags hto)). Qed.
+Print Assumptions C16_truncate_marks.
+
 (* ---- non-vacuity: capacity 5, one env; episodes of 3 and 4 steps (the second wraps the ring and
         overwrites the first), then 1 step of an unfinished third episode ---- *)
 Definition ex_in (t : Z) (d : bool) : hin := mkIn t (100 + t) 7 (t + 1) (101 + t) 7 t t d false 0.
@@ -170,3 +180,7 @@ Proof. vm_compute. repeat split; reflexivity. Qed.
 
 Example C16_ex_share : nb_virtual 4 7 = 5 /\ Qfloor (her_virtual_product (her_ratio 4) 7) = 5.
 Proof. split; reflexivity. Qed.
+
+(* a fresh buffer: np.zeros storage, nothing sampleable, ghost episode -1 = never written *)
+Example C16_ex_fresh : real_sample col0 3 = (0, 0, 0, 0, 0, 0, 0, 0, 0) /\ sl col0 3 = mkS 0 0 0 0 0 0 0 0 0 0 0 (-1) 0 false /\ valid col0 3 = false.
+Proof. repeat split; reflexivity. Qed.
